@@ -37,3 +37,44 @@ pub async fn until_quiescent<F: Future + Unpin>(fut: &mut F) -> Option<F::Output
         _ = barrier() => None,
     }
 }
+
+/// Lifetime of the code under test within one case.
+///
+/// `scope::run!` aborts the process when an unfinished scope is dropped, so tasks that run scopes
+/// (Mux::run, rpc services, replicas, ...) must never be aborted or leaked into the runtime's drop.
+/// They are given `life.ctx`, a context with a far deadline on a manual clock; `end()` moves the
+/// clock past the deadline, which cancels the context, and joins the tasks.
+pub struct Life {
+    /// Manual clock of the case.
+    pub clock: zksync_concurrency::ctx::ManualClock,
+    /// Root context (never cancelled).
+    pub root: zksync_concurrency::ctx::Ctx,
+    /// Context for the code under test; cancelled by `end()`.
+    pub ctx: zksync_concurrency::ctx::Ctx,
+}
+
+const LIFE: zksync_concurrency::time::Duration = zksync_concurrency::time::Duration::days(365 * 1000);
+
+impl Life {
+    /// New lifetime. Must be called inside the runtime.
+    #[allow(clippy::new_without_default)]
+    pub fn new() -> Self {
+        let clock = zksync_concurrency::ctx::ManualClock::new();
+        let root = zksync_concurrency::ctx::test_root(&clock);
+        let ctx = root.with_deadline((clock.now() + LIFE).into());
+        Self { clock, root, ctx }
+    }
+    /// A child context for a spawned task (contexts are not `Clone`).
+    pub fn child(&self) -> zksync_concurrency::ctx::Ctx {
+        self.ctx.with_deadline(zksync_concurrency::time::Deadline::Infinite)
+    }
+    /// Cancels `ctx` and waits for the given tasks to finish.
+    pub async fn end<T>(self, tasks: Vec<tokio::task::JoinHandle<T>>) -> Vec<Result<T, tokio::task::JoinError>> {
+        self.clock.advance(LIFE + LIFE);
+        let mut out = vec![];
+        for t in tasks {
+            out.push(t.await);
+        }
+        out
+    }
+}
